@@ -91,7 +91,7 @@ End Render.
 Definition is_truthy (include_zero : bool) (v : json) : bool :=
   match v with
   | JBool b => b
-  | JNum n => if include_zero then negb (as_f64_is_nan n) else as_f64_is_normal n
+  | JNum n => if include_zero then negb (as_f64_is_nan n) else as_f64_nonzero n
   | JNull => false
   | JStr s => match s with [] => false | _ => true end
   | JArr l => match l with [] => false | _ => true end
